@@ -646,7 +646,7 @@ pub fn check(ctx: &mut Ctx) {
 	ctx.rule = "S-mem (deterministic): histories over up to 3 connections (WebSocket sessions and keep-alive HTTP/1.1 connections through hyper) with calls to gated async / gated blocking / plain handlers, open subscriptions, a peer that can stop reading, message buffers of 1 / 2 / 1024, \
 		stop() at any position (also without a barrier after the previous step: a call may be unread, executing, or answered-but-unsent), gate releases and peer closes in generated order; after the history every gate is opened one by one. \
 		Oracle (hard facts): stopped() never resolves while a started handler has not finished; at the end stopped() has resolved; every call whose handler had started on a peer that stayed connected is answered before EOF; nothing runs afterwards; no panic. \
-		S-tcp (real clock): the same facts through Server::start on loopback incl. a connection attempted after stopped(); a missed wall budget is reported as inconclusive. Non-trivial = stop() issued while >= 1 handler is executing; distinct by case value."
+		S-tcp (real clock): the same facts through Server::start on loopback incl. a connection attempted after stopped(); a missed wall budget is reported as inconclusive. Non-trivial = stop() issued while >= 1 handler is executing; distinct by case value. Sub-checks: stop-with-unread-answer (the peer reads nothing and the pipe is smaller than the answer: stopped() waits until it has been written) and last-handle-dropped (the server is stopped by dropping every ServerHandle: started calls are still answered, nothing panics)."
 		.into();
 	ctx.assumptions = vec![
 		"'never hangs' is decided in S-mem as 'stopped() resolved at quiescence with everything released'; over TCP a hang can only be watched for (exit 2)".into(),
